@@ -143,9 +143,15 @@ def job_c16(clsname, width, seed=0):
                 m = __import__("re").match(r"^    ([A-Za-z][A-Za-z0-9_-]*)\s", ln)
                 if m:
                     listed.append(m.group(1))
-            if sorted(listed) != sorted(table):
+            # argparse leaves a sub-command without help text out of the *listing* (it is still a
+            # command, and `<command> -h` above has shown that): required in the listing are the
+            # members with a non-blank docstring; nothing else may be listed
+            import inspect
+            documented = sorted(c for c, sp in table.items()
+                                if (inspect.getdoc(getattr(cls, sp["member"], None)) or "").strip())
+            if sorted(set(listed) - set(table)) or sorted(set(documented) - set(listed)):
                 fails.append({"what": "set of commands differs", "model": sorted(table),
-                              "impl": sorted(listed)})
+                              "documented": documented, "impl": sorted(listed)})
         # non-public members are not commands
         for kind, name, _ in surf:
             if name.startswith("_") and kind in "FP" and not name.startswith("__"):
